@@ -224,6 +224,7 @@ pub fn report_json(r: &fx::Report) -> Value {
                 "order_fp": format!("{:016x}", s.order_fp),
                 "order": s.order,
                 "facts": s.facts, "facts_fp": format!("{:016x}", s.facts_fp),
+                "facts_dump": s.facts_dump,
                 "ref_ran": s.reference_ran, "ref_sweeps": s.reference_sweeps,
                 "ref_evals": s.reference_evals,
                 "nonconfluent": s.reference_nonconfluent,
@@ -469,6 +470,9 @@ pub fn run_job(job: &Job, opts: &RunOpts) -> Value {
         let l = log.lock().unwrap();
         out["cb_n"] = json!(l.len());
         out["cb_fp"] = json!(fp(l.join("\n").as_bytes()));
+        if opts.want_text {
+            out["cb_log"] = json!(l.clone());
+        }
     }
     if let Some(o) = &outdir {
         let (sfp, n) = side_outputs(o);
